@@ -1,7 +1,7 @@
 (* C10 - format never changes what a file means or says.
    Statements only; proofs in Proofs/FormatProofs.v. *)
 From Coq Require Import String.
-From Verif Require Import Base.Str Base.Lines Base.Outcome Model.Patterns Model.ParseLine Model.Format Proofs.FormatProofs.
+From Verif Require Import Base.Str Base.Lines Base.Outcome Model.Patterns Model.ParseLine Model.Format Proofs.FormatProofs Proofs.FormatIdemProofs Proofs.FormatMeaningProofs.
 From Verif Require Tie.Pin_lits_cmd_regex_format_processLine Tie.Pin_lits_cmd_regex_format_processFile
   Tie.Pin_ProcessorBlockStartRegex_src Tie.Pin_ProcessorEndRegex_src Tie.Pin_FlagsRegex_src Tie.Pin_PrefixRegex_src
   Tie.Pin_SuffixRegex_src Tie.Pin_DefinitionRegex_src Tie.Pin_IncludeRegex_src Tie.Pin_IncludeExceptRegex_src
@@ -33,3 +33,15 @@ Theorem C10_comment_mentioning_include_kept :
   process_line $"##! note ##!> include inc" 0 = (Some $"##! note ##!> include inc", 0%nat).
 Proof. exact comment_mentioning_include_kept. Qed.
 Print Assumptions C10_comment_mentioning_include_kept.
+
+(* THE FORMATTED LINE SAYS WHAT THE LINE SAID: for every line that is not a definition / include /
+   include-except directive, each of the eight directive patterns gives the same answer (match or
+   not, and the same captures) on the formatted line - indentation stripped, as every reader of
+   the file strips it - as on the original.  What the parser, the assembler and the formatter read
+   from the file is unchanged by formatting.  (The three excluded directives: per case only.) *)
+Theorem C10_formatted_line_reads_the_same_partial : forall line indent out next,
+  trim_left is_blank line = line -> not_a_file_directive line ->
+  process_line line indent = (Some out, next) ->
+  same_reading (trim_left is_blank out) line.
+Proof. exact format_keeps_reading. Qed.
+Print Assumptions C10_formatted_line_reads_the_same_partial.
